@@ -15,12 +15,13 @@
 
   Not proved (full statement `PointsEqFilterContains` below; the scanline/Bresenham rasteriser
   against the half-plane test is the geometric core):
-  -- [V] for non-zero area a point that is not an edge pixel is yielded by points() iff it passes the closed barycentric test, i.e. points() equals the row-major points of the bounding box filtered by contains() (`PointsEqFilterContains`; proved here: inside the box, row-major, each once, and the edge-pixel half): carried by correspondence + oracle only
+  -- [V] for non-zero area every point yielded by points() is accepted by contains() (`PointsImpContains`: a covered point that is not an edge pixel passes the closed barycentric test; with it `PointsEqFilterContains`, points() = the row-major points of the bounding box filtered by contains(); proved here: the converse inclusion, inside the box, row-major, each once): carried by correspondence + oracle only
 -/
 import EG.Lemmas.TriangleContains
 import EG.Lemmas.TrianglePoints
 import EG.Lemmas.RectPoints
 import EG.Lemmas.TriangleSpan
+import EG.Lemmas.TriangleCover
 namespace EG.C05
 open EG EG.Triangle
 
@@ -107,6 +108,32 @@ theorem triangle_edge_pixels_in_both (t : Triangle) (h : t.boundingBox.InRange)
   exact ⟨(Triangle.contains_iff t p).mpr ⟨points_in_bbox t h p hmem, a, Or.inr hp⟩, hmem⟩
 
 example : (⟨5, 1⟩ : Pt) ∈ (⟨⟨0, 0⟩, ⟨5, 1⟩, ⟨4, 6⟩⟩ : Triangle).edgePoints := by decide
+
+/-- **Everything `contains()` accepts is yielded by `points()`** (bounding box within the `i32`
+range): a point passing the closed barycentric test lies on or between two Bresenham edge lines in
+its row, a point of an edge line is covered anyway. -/
+theorem triangle_contains_imp_points (t : Triangle) (h : t.boundingBox.InRange) (p : Pt)
+    (hc : t.contains p = true) : p ∈ t.points := by
+  obtain ⟨_, ha, hin | hedge⟩ := (Triangle.contains_iff t p).mp hc
+  · apply Triangle.closed_triangle_covered t h ha p
+    rcases (isInside_iff_half_planes t p ha).mp hin with ⟨h1, h2, h3, _⟩ | ⟨h1, h2, h3, _⟩
+    · exact Or.inl ⟨h1, h2, h3⟩
+    · exact Or.inr ⟨h1, h2, h3⟩
+  · exact (triangle_edge_pixels_in_both t h ha p hedge).2
+
+example : (⟨⟨0, 0⟩, ⟨5, 1⟩, ⟨4, 6⟩⟩ : Triangle).boundingBox.InRange ∧
+    (⟨⟨0, 0⟩, ⟨5, 1⟩, ⟨4, 6⟩⟩ : Triangle).contains ⟨3, 2⟩ = true := by decide
+
+/-- Hence for non-zero area the points of the bounding box that `contains()` accepts form a
+sub-list of `points()` — nothing that `contains()` accepts is missing. -/
+theorem triangle_filter_contains_subset_points (t : Triangle) (h : t.boundingBox.InRange) (p : Pt)
+    (hp : p ∈ t.boundingBox.points.filter t.contains) : p ∈ t.points :=
+  triangle_contains_imp_points t h p (List.mem_filter.mp hp).2
+
+/-- [V] The converse inclusion, the remaining half of `PointsEqFilterContains`: a point between
+two edge pixels of its row that is not itself an edge pixel passes the closed barycentric test. -/
+def PointsImpContains : Prop := ∀ (t : Triangle), t.areaDoubled ≠ 0 → t.boundingBox.InRange →
+  ∀ p ∈ t.points, t.contains p = true
 
 /-- [V] Full statement of the triangle part of C05. -/
 def PointsEqFilterContains : Prop := ∀ (t : Triangle), t.areaDoubled ≠ 0 → t.boundingBox.InRange →
